@@ -97,6 +97,19 @@ def w_mapping(job):
             if got != want:
                 fail("C20|mapping|GetLineFromOffset|" + ("at-newline" if off < len(text) and text[off] == "\n" else "after-newline" if off and text[off - 1] == "\n" else "inside-line"),
                      {"part": "mapping", "text": text, "offset": off, "expected": want, "observed": got})
+        if len(text) <= 7 and nl:
+            # the answer for an offset does not depend on which offsets were asked before: every ordered pair on ONE mapping object
+            sm2 = ast.SourceMapping(text)
+            for o1 in range(len(text) + 1):
+                for o2 in range(len(text) + 1):
+                    n += 1
+                    try:
+                        sm2.GetLineFromOffset(o1)
+                        got = sm2.GetLineFromOffset(o2)
+                    except Exception as e:
+                        got = type(e).__name__
+                    if got != ref_line(text, o2):
+                        fail("C20|mapping|GetLineFromOffset-depends-on-earlier-lookup", {"part": "mapping", "text": text, "offset": o2, "after_offset": o1, "expected": ref_line(text, o2), "observed": got})
         for line in range(nl + 1):
             n += 1
             want = ref_line_start(text, line)
@@ -155,6 +168,11 @@ PROGRAMS = {
                  T("float"), T("u", True), T("="), T("x", True), T("*"), T("1e3", True), T("+"), T(".5", True), T("-"), T("3.", True), T("*"), T("1.5e-2f", True), T(";"),
                  T("int"), T("k", True), T("="), T("0XaB", True), T("+"), T("017", True), T("+"), T("0", True), T(";"),
                  T("return"), T("s", True), T("+"), T("u", True), T("*"), T("float"), T("("), T("k", True), T(")"), T("+"), T("0.25f", True), T(";"), T("}")],
+    "unlocated-first": [T("function"), T("g"), T("("), T(")"), T("->"), T("int"), T("{"), T("return"), T("4", True), T(";"), T("}"),
+                        T("export"), T("function"), T("f"), T("("), T("int"), T("a", True), T(")"), T("->"), T("int"), T("{"), T("int"), T("x", True), T("="), T("g"), T("("), T(")"), T("+"), T("a", True), T(";"),
+                        T("{"), T("g"), T("("), T(")"), T(";"), T("a", True), T("="), T("a", True), T("+"), T("1", True), T(";"), T("}"),
+                        T("for"), T("("), T(";"), T(";"), T(")"), T("{"), T("a", True), T("="), T("g"), T("("), T(")"), T("*"), T("x", True), T(";"), T("break"), T(";"), T("}"),
+                        T("while"), T("("), T("g"), T("("), T(")"), T("<"), T("a", True), T(")"), T("{"), T("}"), T("return"), T("g"), T("("), T(")"), T("+"), T("x", True), T(";"), T("}")],
     "short-decl": [T("export"), T("function"), T("f"), T("("), T("int"), T("a", True), T(")"), T("->"), T("int"), T("{"), T("int"), T("v", True), T("="), T("a", True), T(";"),
                    T("return"), T("v", True), T("++"), T(";"), T("}")],
     "short-loop": [T("export"), T("function"), T("f"), T("("), T("int"), T("n", True), T(")"), T("->"), T("int"), T("{"), T("for"), T("("), T("int"), T("i", True), T("="), T("0", True), T(";"),
@@ -328,6 +346,11 @@ def w_layout(job):
             if bad:
                 fail(f"C20|layout|hull|{name}|{bad[0][0]}>{bad[0][1]}", {"part": "layout", "program": name, "source": src,
                      "expected": "after UpdateLocations every node covers its located children", "observed": str(bad[:3])})
+                continue
+            wild = [(b, e, c) for b, e, c in located_nodes(tree) if not (0 <= b <= e <= len(src))]
+            if wild:
+                fail(f"C20|layout|range-outside-the-text|{name}|{wild[0][2]}", {"part": "layout", "program": name, "source": src,
+                     "expected": "every known range lies inside the text", "observed": str(wild[:3])})
                 continue
             # composites read off the TOKENS (not off the tree's own notion of children): `x . member` and `x [ ... ]` are covered
             # from the first character of x to the last character of the member / the index expression
